@@ -28,11 +28,12 @@
  *
  * A mutation token is a comma separated list of operations applied to a fresh copy of the honest input:
  *   honest | m=<hex> | id=<hex> | <comp>:<op>[:<arg>] | swap:<A>:<B> | cp:<A>:<B> | scheme specific (see each scheme)
- *   integer components:  bit:<k>  +n  n-  =0  =n  =1  neg  -n
+ *   integer components:  bit:<k>  +n  n-  =0  =n  =1  neg  -n  +nshl:<k> (x + n 2^k)
  *   curve points (G1 / E): fx:<k> fy:<k> inf neg dbl other (a point of y^2 = x^3 + ax + b + 1) gen
  *   G2 points: fx:<k> fy:<k> inf neg dbl +T (a twist point outside G2 is added) gen
  */
 #include "vh.h"
+#include <sys/wait.h>
 
 #if !defined(WITH_CP) || !defined(WITH_PC)
 #error "drv_sig2.c needs the CP and PC modules"
@@ -153,6 +154,7 @@ static void curve_hdr(void) {
 	vh_bn("h", H);
 	vh_int("fcb", (long)RLC_FC_BYTES);
 	vh_int("mdl", (long)RLC_MD_LEN);
+	vh_int("pairf", ep_curve_is_pairf() ? 1 : 0);
 }
 static void pc_hdr(void) {
 	curve_hdr();
@@ -312,6 +314,7 @@ static int apply_op(const char *op) {
 		else if (IS("=1")) bn_set_dig(x, 1);
 		else if (IS("neg")) bn_neg(x, x);
 		else if (IS("-n")) bn_sub(x, x, N);
+		else if (IS("+nshl")) { bn_lsh(T, N, k); bn_add(x, x, T); }        /* x + n 2^k */
 		else return 0;
 		return 1;
 	}
@@ -647,7 +650,7 @@ static int etrs_hook(const char *op) {
 	return ring_hook(op);
 }
 static void do_etrs(void) {
-	int id = atoi(vh_tok[1]), err, ret = -1, i, used = 0, hon = 1, nkey = 1;
+	int id = atoi(vh_tok[1]), err, ret = -1, i, used = 0, hon = 1, nkey = 1, crash = 0, code2 = 0;
 	size_t j, max;
 	const char *plan;
 	etrs_t ring[RMAX + 1];
@@ -688,9 +691,38 @@ static void do_etrs(void) {
 		fresh(); vsize = rsize; rot = 0; thres = hon;
 		apply_mut(vh_tok[i], etrs_hook);
 		for (j = 0; j < vsize; j++) memcpy(ring[j], ETR[rot ? (j + 1) % vsize : j], sizeof(etrs_t));
-		ret = -1; vh_code();
-		VH_TRY(err, ret = cp_etrs_ver((size_t)thres, (const bn_t *)(ETD + used), (const bn_t *)(EY + used), max - used, ring, vsize, msg, len, PP));
+		ret = -1; vh_code(); crash = 0;
+		if (thres > (long)vsize || thres < 0) {
+			/* the verifier sizes its work arrays with max + size - thres and fills max entries: an abnormal end of the
+			 * call must become a field of THIS event, so the call runs in a forked child (as drv_sig.c does for RSA) */
+			int fd[2], st = 0, res[3] = { -1, 0, 0 };
+			pid_t pid;
+			fflush(vh_out);
+			if (pipe(fd) != 0) exit(2);
+			pid = fork();
+			if (pid < 0) exit(2);
+			if (pid == 0) {
+				int e2, r2 = -1;
+				signal(SIGSEGV, SIG_DFL); signal(SIGBUS, SIG_DFL); signal(SIGABRT, SIG_DFL); signal(SIGILL, SIG_DFL); signal(SIGFPE, SIG_DFL);
+				close(fd[0]);
+				VH_TRY(e2, r2 = cp_etrs_ver((size_t)thres, (const bn_t *)(ETD + used), (const bn_t *)(EY + used), max - used, ring, vsize, msg, len, PP));
+				res[0] = r2; res[1] = e2; res[2] = vh_code();
+				if (write(fd[1], res, sizeof(res)) < 0) {}
+				_exit(0);
+			}
+			close(fd[1]);
+			if (read(fd[0], res, sizeof(res)) != (ssize_t)sizeof(res)) { res[0] = -1; res[1] = 0; res[2] = 0; }
+			close(fd[0]);
+			waitpid(pid, &st, 0);
+			if (WIFSIGNALED(st)) crash = WTERMSIG(st);
+			else if (!WIFEXITED(st) || WEXITSTATUS(st) != 0) crash = 255;
+			ret = res[0]; err = res[1]; code2 = res[2];
+		} else {
+			VH_TRY(err, ret = cp_etrs_ver((size_t)thres, (const bn_t *)(ETD + used), (const bn_t *)(EY + used), max - used, ring, vsize, msg, len, PP));
+			code2 = vh_code();
+		}
 		vh_begin("etrs_ver"); curve_hdr();
+		vh_int("crash", crash);
 		vh_int("thres", thres); vh_int("hthres", hon);
 		vh_ep("pp", PP); vh_bytes("msg", msg, len);
 		fputs(",\"td\":[", vh_out);
@@ -708,7 +740,10 @@ static void do_etrs(void) {
 			fputc('}', vh_out);
 		}
 		fputc(']', vh_out);
-		ver_tail(vh_tok[i], ret, err); vh_end();
+		vh_str("mut", vh_tok[i]);
+		vh_int("honest", strcmp(vh_tok[i], "honest") == 0);
+		vh_int("ret", ret); vh_int("err", err); vh_int("code", code2);
+		vh_end();
 	}
 }
 
